@@ -793,6 +793,33 @@ func useAfter(p *Prog, ps *poolSummaries, f *ssa.Function, rel ssa.Instruction, 
 					return fmt.Sprintf("field .%s of the closed owner is used after the release at %s", field, p.posStr(instrPos(in)))
 				}
 			}
+		case *ssa.MakeClosure:
+			// a bound method value (ir.DecodeJPEGIfd) or a closure over the owner, created after the release: whoever
+			// calls it later uses the released field through it
+			fn, _ := x.Fn.(*ssa.Function)
+			if fn == nil {
+				break
+			}
+			for bi, bnd := range x.Bindings {
+				if !same[bnd] || bi >= len(fn.FreeVars) {
+					continue
+				}
+				fv := ssa.Value(fn.FreeVars[bi])
+				hit := ""
+				eachCall(fn, func(site ssa.CallInstruction) {
+					args := callArgs(site.Common())
+					for _, g := range p.Callees(site) {
+						for k := range ps.uses[g] {
+							if k.field == field && k.param < len(args) && args[k.param] == fv {
+								hit = fnName(g)
+							}
+						}
+					}
+				})
+				if hit != "" {
+					return fmt.Sprintf("a method value or closure over the closed owner is created after the release at %s; calling it runs %s, which uses .%s", p.posStr(instrPos(in)), hit, field)
+				}
+			}
 		case ssa.CallInstruction:
 			args := callArgs(x.Common())
 			for _, g := range p.Callees(x) {
